@@ -32,8 +32,11 @@ std::vector<VariablePtr>::iterator AnalyserExternalVariable::AnalyserExternalVar
                                                                                                           const std::string &variableName)
 {
     return std::find_if(mDependencies.begin(), mDependencies.end(), [=](const auto &v) {
-        return (owningModel(v) == model)
-               && (owningComponent(v)->name() == componentName)
+        auto component = owningComponent(v);
+
+        return (component != nullptr)
+               && (owningModel(v) == model)
+               && (component->name() == componentName)
                && (v->name() == variableName);
     });
 }
